@@ -772,6 +772,65 @@ def desugar_for(body, k, cnt):
     return body[:i] + new + body[ob + 1:]
 
 
+def arm_tail_lines(blines, prefix):
+    """Line indices of the tail expression of every match arm `<prefix>... => { ...; <tail> }` (only arms whose block ends in a
+    one-line tail expression; an arm ending in a nested block has no such line)."""
+    text = '\n'.join(blines)
+    starts = [0]
+    for l in blines:
+        starts.append(starts[-1] + len(l) + 1)
+    res = []
+    mask = code_mask(text)
+    for m in re.finditer(re.escape(prefix), text):
+        if not mask[m.start()]:
+            continue
+        # must be at the start of a line (an arm pattern), not an expression
+        ls = text.rfind('\n', 0, m.start()) + 1
+        if text[ls:m.start()].strip() != '':
+            continue
+        # find `=>` then `{` at depth 0 after the pattern
+        j = m.end()
+        depth = sum(prefix.count(c) for c in '([{') - sum(prefix.count(c) for c in ')]}')
+        arrow = None
+        while j < len(text) - 1:
+            c = text[j]
+            if mask[j]:
+                if c in '([{':
+                    depth += 1
+                elif c in ')]}':
+                    depth -= 1
+                    if depth < 0:
+                        break
+                elif c in ',;' and depth == 0:
+                    break  # an expression, not an arm pattern
+                elif c == '=' and text[j + 1] == '>' and depth == 0:
+                    arrow = j
+                    break
+            j += 1
+        if arrow is None:
+            continue
+        k = arrow + 2
+        while k < len(text) and text[k].isspace():
+            k += 1
+        if k >= len(text) or text[k] != '{':
+            continue
+        close = match_close(text, k)
+        # last non-blank, non-injected line strictly inside the block
+        import bisect
+        lo = bisect.bisect_right(starts, k) - 1
+        hi = bisect.bisect_right(starts, close) - 1
+        t = hi - 1
+        while t > lo and (blines[t].strip() == '' or blines[t].startswith('/*@inj*/')):
+            t -= 1
+        if t <= lo:
+            continue
+        tail = blines[t].strip()
+        if tail.endswith('}') or tail.endswith(';') or tail.endswith('{'):
+            continue
+        res.append(t)
+    return res
+
+
 def parse_quoted_pair(arg):
     m = re.match(r'\s*"((?:[^"\\]|\\.)*)"\s*=>\s*"((?:[^"\\]|\\.)*)"\s*(x(\d+|\?|\*))?\s*$', arg, re.S)
     if not m:
@@ -824,11 +883,12 @@ def process_fn_block(head, lines, meta, stub=False):
             elif kw in ('after', 'before'):
                 # one or more alternative anchors: "text" [#k] | "other text" [#k]  (first one found wins)
                 alts = []
-                for part in re.split(r'\s+\|\s+(?=")', arg):
-                    m = re.match(r'"((?:[^"\\]|\\.)*)"\s*(#(\d+))?$', part.strip())
+                for part in re.split(r'\s+\|\s+(?=(?:arm:)?")', arg):
+                    m = re.match(r'(arm:)?"((?:[^"\\]|\\.)*)"\s*(#(\d+))?$', part.strip())
                     if not m:
                         raise ExtractError('bad anchor: ' + arg)
-                    alts.append((m.group(1).encode().decode('unicode_escape'), int(m.group(3) or 1)))
+                    # arm:"<pattern prefix>" = the tail-expression line of the match arm whose pattern starts with that text
+                    alts.append(((('@arm:' if m.group(1) else '') + m.group(2).encode().decode('unicode_escape')), int(m.group(4) or 1)))
                 cur = []
                 inserts.append((kw, alts, 0, cur))
             elif kw == 'atend':
@@ -947,6 +1007,12 @@ def process_fn_block(head, lines, meta, stub=False):
                 continue
             at = None
             for anc, kk in anchor:
+                if anc.startswith('@arm:'):
+                    hits = arm_tail_lines(blines, anc[5:])
+                    if len(hits) >= kk and mode == 'before':
+                        at = hits[kk - 1]
+                        break
+                    continue
                 hits = [i for i, l in enumerate(blines) if not l.startswith('/*@inj*/') and (l.strip() == anc or l.strip().startswith(anc))]
                 if len(hits) >= kk:
                     at = hits[kk - 1] + (1 if mode == 'after' else 0)
